@@ -65,6 +65,6 @@ LiveFib == { p \in DOMAIN nh : DOMAIN nh[p] # {} } \cup DOMAIN st
 TreeNodes == UNION { Prefixes(p) : p \in LiveFib } \ {<<>>}
 I_C08tbl == Did(RibOps \cup FibOps) =>
                /\ Last.shape.ribdead = 0 /\ Last.shape.ribnodes = Cardinality(PruneAll(tn, routes)) - 1
-               /\ Last.shape.fibdead = 0 /\ Last.shape.virtdead = 0
+               /\ Last.shape.fibdead = 0 /\ Last.shape.virtdead = 0 /\ Last.shape.virtstale = 0
                /\ Last.shape.fibnodes = (IF algo = "nametree" THEN Cardinality(TreeNodes) ELSE Cardinality(LiveFib \ {<<>>}))
 ====
